@@ -1,2 +1,67 @@
+(* C17 — the property, clause by clause.  Only statements; every proof is `exact lemma`.
+   `lib` = the Go library functions the model takes as parameters; every theorem holds for all. *)
+From Coq Require Import ZArith List Bool String.
 From V.C17 Require Import Model Spec Proofs.
-Theorem placeholder_true : True. Proof. exact I. Qed.
+Open Scope Z_scope.
+
+(* a converted argument always has the parameter's kind (what reflect.Call requires); before the
+   fix this failed for every int64 parameter *)
+Theorem to_go_typed : forall lib k v g, to_go lib k v = Ok g -> dyn_kind g = k.
+Proof. exact to_go_typed_l. Qed.
+Print Assumptions to_go_typed.
+
+(* "receives, for every parameter of kind string, bool, int, int64, float64 (and the sized
+   integer/float kinds when the value is representable), exactly the value the script passed"
+   and "a value that cannot be converted is reported as a catchable script error":
+   for every script value of the matching sort and every one of the 14 kinds, the converter
+   yields exactly that value as a Go value of the parameter's kind (a float64 at a float32
+   parameter: the nearest float32), or Throw when the value does not exist in the kind *)
+Theorem to_go_matching : forall lib k v, wf v = true -> matching v k = true ->
+  to_go lib k v = if unconvertible lib v k then Throw else Ok (arrive lib k v).
+Proof. exact to_go_matching_l. Qed.
+Print Assumptions to_go_matching.
+
+(* "the script receives exactly the value Go returned": every returnable Go result (any string,
+   bool, float32/float64, any integer kind up to 2^63-1) comes back as that value *)
+Theorem from_go_exact : forall g, returnable g = true -> from_go g = Ok (project g).
+Proof. exact from_go_returnable_l. Qed.
+(* there and back: a value passed to Go and returned unchanged is the value passed *)
+Theorem roundtrip : forall lib k v, wf v = true -> matching v k = true -> unconvertible lib v k = false ->
+  from_go (arrive lib k v) =
+  Ok (match v, k with SFloat f, KFloat32 => SFloat (f32 lib f) | _, _ => v end).
+Proof. exact roundtrip_l. Qed.
+Print Assumptions from_go_exact.
+Print Assumptions roundtrip.
+
+(* "no registered signature makes the call crash the interpreter": for EVERY signature (any arity,
+   any kinds incl. unsupported ones), any arguments (any number, any script values) and any
+   result, the call is a value, no result, or a catchable error — never a reflect.Call panic *)
+Theorem call_never_crashes : forall lib params args ret,
+  not_crash (snd (call lib params args ret)) = true.
+Proof. exact call_never_crashes_l. Qed.
+Print Assumptions call_never_crashes.
+
+(* a whole call with matching convertible arguments: the Go function receives exactly the
+   arguments, in order, and the script gets the converted result *)
+Theorem call_exact : forall lib params args ret, all_ok lib params args = true ->
+  call lib params args ret =
+  (arrivals lib params args, match ret with None => NoResult | Some g => from_go g end).
+Proof. exact call_exact_l. Qed.
+(* an unconvertible argument (after convertible ones): catchable error, function not invoked *)
+Theorem call_unconvertible : forall lib params args ret k a ps r pre_p pre_a,
+  params = (pre_p ++ k :: ps)%list -> args = (pre_a ++ a :: r)%list ->
+  all_ok lib pre_p pre_a = true -> wf a = true -> matching a k = true -> unconvertible lib a k = true ->
+  call lib params args ret = ([], Throw).
+Proof. exact call_unconvertible_l. Qed.
+Print Assumptions call_exact.
+Print Assumptions call_unconvertible.
+
+(* "both the reflective registration path and the generic argument converter used by the standard
+   library wrappers": utils.ConvertFromIndex[T] on scalars *)
+Theorem generic_typed : forall lib k v g, generic lib k v = Ok g -> dyn_kind g = k.
+Proof. exact generic_typed_l. Qed.
+Theorem generic_matching : forall lib k v, matching v k = true ->
+  generic lib k v = if unconvertible lib v k then Throw else Ok (arrive lib k v).
+Proof. exact generic_matching_l. Qed.
+Print Assumptions generic_typed.
+Print Assumptions generic_matching.
